@@ -375,8 +375,7 @@ theorem listCellOf_map (f : β → γ) (d : Bool) (l : List (Stmt β)) :
     | anon p sub =>
       simp only [List.map_cons, List.map_nil, smap_anon]
       exact tail false
-  · simp only [List.map_cons]
-    exact tail false
+  · cases s <;> simp only [List.map_cons, smap_obj, smap_anon] <;> exact tail false
 
 theorem listSyntaxAux_map (f : β → γ) (d : Bool) : ∀ (n : Nat) (l : List (Stmt β)),
     listSyntaxAux d n (l.map (smap f)) = (listSyntaxAux d n l).map (Option.map (List.map (smap f))) := by
